@@ -1645,4 +1645,39 @@ theorem append_items_alias (h : Heap) (id : Nat) (args : List Val) (hwf : WF h) 
   intro i hi
   exact P.vis i (hm i hi).2
 
+/-! ### an element of `WrappedErrors()` used as a value of its own -/
+
+theorem wrappedErrors_next_none (h : Heap) (id : Nat) : ∀ n ∈ wrappedErrors h id, n.next = none := by
+  intro n hn
+  unfold wrappedErrors at hn
+  simp only [List.mem_filterMap] at hn
+  obtain ⟨i, _, hx⟩ := hn
+  cases hh : h[i]? with
+  | none => rw [hh] at hx; cases hx
+  | some m => rw [hh] at hx; simp at hx; rw [← hx]
+
+/-- the element is a detached copy in a fresh cell: no link, the heap invariant is kept, no existing cell changes, and no
+    existing chain passes through it (so `Append` on it cannot touch the aggregate it came from: `append_frame`) -/
+theorem elem_spec (h : Heap) (hwf : WF h) (id i : Nat) (n : ENode) (hn : (wrappedErrors h id)[i]? = some n) :
+    elem h (.ref id) i = (h.push n, .ref h.size) ∧ n.next = none ∧ WF (h.push n) ∧
+    (∀ j, j < h.size → (h.push n)[j]? = h[j]?) ∧
+    (∀ id', id' < h.size → h.size ∉ chain h (fuelOf h) id') := by
+  have hnext : n.next = none := wrappedErrors_next_none h id n (List.mem_of_getElem? hn)
+  refine ⟨by simp [elem, hn], hnext, push_wf h n hwf hnext, ?_, ?_⟩
+  · intro j hj
+    rw [Array.getElem?_push]; simp [Nat.ne_of_lt hj]
+  · intro id' hid' hmem
+    have := ((hwf.chain_spec hid').2 _ hmem).2
+    omega
+
+theorem elem_none (h : Heap) (v : Val) (i : Nat) (hv : ∀ id, v = .ref id → (wrappedErrors h id)[i]? = none) :
+    elem h v i = (h, .nilIface) := by
+  cases v with
+  | ref id => simp [elem, hv id rfl]
+  | nilIface => rfl
+  | typedNil => rfl
+  | foreignNil => rfl
+  | plain u m => rfl
+  | fwrap u m inner => rfl
+
 end Errs
